@@ -2,6 +2,7 @@ import RedisEmu.GoArith
 import RedisEmu.Cmds
 import RedisEmu.Bits
 import RedisEmu.Dict
+import RedisEmu.Proofs.Rev
 import Mathlib.Tactic.IntervalCases
 import Mathlib.Tactic.SplitIfs
 /-
@@ -241,4 +242,63 @@ theorem toInt_add_wrap (a b : BitVec 64) : (a + b).toInt = wrap64 (a.toInt + b.t
   simp at *
   split_ifs <;> omega
 
+/-- `bits.Reverse…`: reversing all `w` bits of a word is the model's `rev w` -/
+theorem toNat_reverse : ∀ (w : Nat) (x : BitVec w), (BitVec.reverse x).toNat = rev w x.toNat := by
+  intro w
+  induction w with
+  | zero => intro x; have := x.isLt; simp [BitVec.reverse, rev]; omega
+  | succ w ih =>
+    intro x
+    unfold BitVec.reverse
+    rw [BitVec.toNat_concat, ih, rev_succ]
+    simp only [BitVec.toNat_setWidth, rev_mod]
+    have hx := x.isLt
+    have : x.msb.toNat = x.toNat / 2 ^ w % 2 := by
+      rw [BitVec.msb_eq_decide]
+      simp only [Nat.add_sub_cancel]
+      have h2 : x.toNat / 2 ^ w < 2 := by
+        rw [Nat.div_lt_iff_lt_mul (Nat.two_pow_pos w)]; rw [Nat.pow_succ] at hx; omega
+      by_cases h : 2 ^ w ≤ x.toNat
+      · have : 1 ≤ x.toNat / 2 ^ w := (Nat.le_div_iff_mul_le (Nat.two_pow_pos w)).2 (by omega)
+        simp [h]; omega
+      · have : x.toNat / 2 ^ w = 0 := Nat.div_eq_of_lt (by omega)
+        simp [h, this]
+    rw [this]; omega
+
+theorem rev_shifted (k c : Nat) (hk : k ≤ 32) (hc : c < 2 ^ k) :
+    rev 32 (c * 2 ^ (32 - k)) = rev k c := by
+  have hr := rev_lt k c
+  have h1 : rev 32 (rev k c) = c * 2 ^ (32 - k) := by
+    have := rev_grow k (32 - k) (rev k c) hr
+    rw [show k + (32 - k) = 32 by omega, rev_rev_of_lt k c hc] at this
+    exact this
+  rw [← h1]
+  exact rev_rev_of_lt 32 _ (Nat.lt_of_lt_of_le hr (Nat.pow_le_pow_right (by omega) hk))
+
+/-- the translated `hashToIndex` on a table of `2^k` buckets is the model's `bucketOf k` of the
+    low 32 bits of the hash (the only use of the 64-bit SipHash value) -/
+theorem go_hashToIndex (h : BitVec 64) (k : Nat) (hk : k ≤ 31) :
+    (Go.hashToIndex h (BitVec.ofNat 32 (2 ^ k)) (BitVec.ofNat 64 k)).toNat
+      = bucketOf k (h.toNat % 2 ^ 32) := by
+  have hp : 2 ^ k < 2 ^ 32 := Nat.pow_lt_pow_right (by omega) (by omega)
+  have hp1 := Nat.two_pow_pos k
+  unfold Go.hashToIndex bucketOf
+  simp only [toNat_reverse]
+  have hmask : (BitVec.ofNat 32 (2 ^ k) - 1#32) = BitVec.ofNat 32 (2 ^ k - 1) := by
+    apply BitVec.eq_of_toNat_eq
+    simp only [BitVec.toNat_sub, BitVec.toNat_ofNat]
+    rw [Nat.mod_eq_of_lt hp]; simp; omega
+  have hsh : (32#64 - BitVec.ofNat 64 k).toNat = 32 - k := by
+    simp only [BitVec.toNat_sub, BitVec.toNat_ofNat]; omega
+  rw [hmask, hsh]
+  have hc : (h.toNat % 2 ^ 32) % 2 ^ k < 2 ^ k := Nat.mod_lt _ hp1
+  have hb : (BitVec.setWidth 32 h &&& BitVec.ofNat 32 (2 ^ k - 1)).toNat = (h.toNat % 2 ^ 32) % 2 ^ k := by
+    simp only [BitVec.toNat_and, BitVec.toNat_setWidth, BitVec.toNat_ofNat]
+    rw [Nat.mod_eq_of_lt (by omega : 2 ^ k - 1 < 2 ^ 32), Nat.and_two_pow_sub_one_eq_mod]
+  rw [BitVec.toNat_shiftLeft, hb, Nat.shiftLeft_eq]
+  have hlt : (h.toNat % 2 ^ 32 % 2 ^ k) * 2 ^ (32 - k) < 2 ^ 32 := by
+    calc _ < 2 ^ k * 2 ^ (32 - k) := Nat.mul_lt_mul_of_pos_right hc (Nat.two_pow_pos _)
+      _ = 2 ^ 32 := by rw [← Nat.pow_add]; congr 1; omega
+  rw [Nat.mod_eq_of_lt hlt]
+  exact rev_shifted k _ (by omega) hc
 end RedisEmu
